@@ -160,6 +160,10 @@ func fedL1Universe(r *rand.Rand) *fedUniverse {
 	u.Nodes[root].Fields["touchProduct"] = fvL(refs(products)...)
 	u.Nodes[root].Fields["renameUser"] = fvL(refs(users)...)
 	u.Nodes[root].Fields["addReview"] = fvL(refs(reviews)...)
+	// (the subscription fields of layout L1S: the entity an event of the source is about, selected by its key argument)
+	u.Nodes[root].Fields["productUpdated"] = fvL(refs(products)...)
+	u.Nodes[root].Fields["userChanged"] = fvL(refs(users)...)
+	u.Nodes[root].Fields["reviewAdded"] = fvL(refs(reviews)...)
 	return u
 }
 
